@@ -11,6 +11,7 @@ import (
 	"net/http"
 	"net/http/httptest"
 	"strings"
+	"time"
 
 	"github.com/tailscale/setec/acl"
 	"github.com/tailscale/setec/audit"
@@ -170,6 +171,7 @@ func traceHTTP(o opts) error {
 			whos = append(whos, ws)
 		}
 		sh := &shadow{vers: map[string][]uint32{}, active: map[string]uint32{}, latest: map[string]uint32{}, gone: map[string][]uint32{}, last: map[string][]byte{}}
+		prevReq := "nothing"
 		for s := 0; s < o.steps; s++ {
 			base := *whos[r.Intn(len(whos))]
 			if r.Intn(2) == 0 {
@@ -263,6 +265,19 @@ func traceHTTP(o opts) error {
 				reqBody = nil
 			case 6:
 				reqBody = []byte("not json at all")
+			case 7, 8:
+				// a version that is not a 32-bit unsigned number: beyond the range (so that its
+				// low 32 bits are a plausible version), negative, fractional, exponent form, quoted
+				if i := bytes.Index(reqBody, []byte(`"Version":`)); i >= 0 {
+					j := i + len(`"Version":`)
+					k := j
+					for k < len(reqBody) && reqBody[k] >= '0' && reqBody[k] <= '9' {
+						k++
+					}
+					alt := pick(r, []string{fmt.Sprint(uint64(op.ver) + 1<<32), fmt.Sprint(uint64(op.ver) + 1<<32), fmt.Sprint(uint64(op.ver) + 3<<32),
+						"-" + fmt.Sprint(op.ver), fmt.Sprint(op.ver) + ".0", fmt.Sprint(op.ver) + "e0", `"` + fmt.Sprint(op.ver) + `"`, "4294967296", "18446744073709551617"})
+					reqBody = append(append(append([]byte(nil), reqBody[:j]...), alt...), reqBody[k:]...)
+				}
 			default:
 				if method == "POST" && ct == "application/json" && nb == "setec" && addr != "garbage" && r.Intn(2) == 0 {
 					via = "client"
@@ -287,6 +302,9 @@ func traceHTTP(o opts) error {
 			if cfault {
 				diskBefore, _ = readDisk(w.path, kek)
 			}
+			note("hist=%d: %s %s of %q (version argument %d) via %s, after %s", h, method, ep, op.name, op.ver, via, prevReq)
+			prevReq = fmt.Sprintf("%s %s of %q (version argument %d)", method, ep, op.name, op.ver)
+			hung := false
 			do := func(req *http.Request) (*http.Response, error) {
 				exchanges++
 				if cfault && exchanges == 1 {
@@ -299,7 +317,15 @@ func traceHTTP(o opts) error {
 				}
 				req.RemoteAddr = addr
 				rec := httptest.NewRecorder()
-				mux.ServeHTTP(rec, req)
+				served := make(chan struct{})
+				go func() { defer close(served); mux.ServeHTTP(rec, req) }()
+				select {
+				case <-served:
+				case <-time.After(20 * time.Second):
+					// a handler that has not answered after 20 s of real time never will
+					hung = true
+					return nil, errors.New("the handler did not return")
+				}
 				resp := rec.Result()
 				status = resp.StatusCode
 				rbody, _ = io.ReadAll(resp.Body)
@@ -349,6 +375,10 @@ func traceHTTP(o opts) error {
 				}
 				do(req)
 			}
+			if hung {
+				emit("httphang\tep=%s\tkind=%s\tn=%s\tv=%d\tvia=%s", ep, op.kind, hx(op.name), op.ver, via)
+				break
+			}
 			if cfault {
 				after, _ := readDisk(w.path, kek)
 				emit("clientfault\tep=%s\tkind=%s\tcli=%s\texchanges=%d\tchanged=%s", ep, op.kind, cli, exchanges, b01(diskBefore != after))
@@ -388,36 +418,42 @@ func joinHexX(xs []string) string {
 	return strings.Join(ys, "+")
 }
 
+// decodeAs classifies a request body with the harness's own mirror of the documented request
+// shapes (types/api: names are strings, versions 32-bit unsigned numbers, values base64 strings)
+// and encoding/json - not with the types of the tree under test, whose decoding is part of what
+// is being checked.
 func decodeAs(ep string, body []byte) (ok bool, name string, ver uint32, uic bool, val []byte) {
 	dec := func(v any) bool { return json.NewDecoder(bytes.NewReader(body)).Decode(v) == nil }
 	switch ep {
 	case "list":
-		var q api.ListRequest
+		var q struct{}
 		return dec(&q), "", 0, false, nil
-	case "info":
-		var q api.InfoRequest
+	case "info", "delete":
+		var q struct{ Name string }
 		ok = dec(&q)
 		return ok, q.Name, 0, false, nil
 	case "get":
-		var q api.GetRequest
+		var q struct {
+			Name            string
+			Version         uint32
+			UpdateIfChanged bool
+		}
 		ok = dec(&q)
-		return ok, q.Name, uint32(q.Version), q.UpdateIfChanged, nil
+		return ok, q.Name, q.Version, q.UpdateIfChanged, nil
 	case "put":
-		var q api.PutRequest
+		var q struct {
+			Name  string
+			Value []byte
+		}
 		ok = dec(&q)
 		return ok, q.Name, 0, false, q.Value
-	case "activate":
-		var q api.ActivateRequest
+	case "activate", "delete-version":
+		var q struct {
+			Name    string
+			Version uint32
+		}
 		ok = dec(&q)
-		return ok, q.Name, uint32(q.Version), false, nil
-	case "delete-version":
-		var q api.DeleteVersionRequest
-		ok = dec(&q)
-		return ok, q.Name, uint32(q.Version), false, nil
-	case "delete":
-		var q api.DeleteRequest
-		ok = dec(&q)
-		return ok, q.Name, 0, false, nil
+		return ok, q.Name, q.Version, false, nil
 	}
 	return false, "", 0, false, nil
 }
